@@ -347,6 +347,7 @@ def run(chk):
                        'columns (loads, S, eps, LF extremes, S_a, S_m, eps_a, eps_m, R, flags, run) and the strain lists are compared exactly; seeded sub-samples are also run '
                        'negated and as batches of 2-3 proportional points (batch point = point alone). Non-trivial = >= 2 recorded hystereses. '
                        'Recorded longer two-pass runs and raw process()/flush histories are validated by Trace_HCM.tla; runs with REAL laws (Binned ExtendedNeuber / SeegerBeste) are validated against the specification driven by the tabulated law.')
+    chk.cov['rule'] += ' Also: strictly alternating sequences over -3..3 (x2) with the cubic law (a fixed sample replayed); chunks are handed over in a re-used buffer that is overwritten after each call.'
     chk.cov['exhaustive'] = True
     chk.assumptions += ['the independent implementation is the TLA+ HCMNL specification, written from the procedure pyLife documents (cases a-c, Memory 1-3); the guideline text itself is not available offline',
                         'exact integer laws injected through the public constructor argument; real laws (ExtendedNeuber, SeegerBeste, Binned) are exercised by C10',
